@@ -22,15 +22,17 @@ var addrAlphabet = []string{
 	"fbff:ffff::1", "fc00::", "fdff:ffff:ffff:ffff:ffff:ffff:ffff:ffff", "fe00::",
 	"::1", "::", "2001:db8::1", "::ffff:10.0.0.1", "::ffff:8.8.8.8", "::ffff:127.0.0.1",
 	"abc.local", "f47ac10b-58cc-4372-a567-0e02b2c3d479.local",
+	// IPv6 ranges that are NOT in the statement's list (must be kept): link-local, site-local, multicast, NAT64
+	"fe80::1", "febf:ffff::1", "fec0::1", "ff02::1", "64:ff9b::a00:1", "::2", "::ffff:169.254.0.1", "::ffff:0.0.0.0",
 }
 
 var localPrefixes = func() []netip.Prefix {
 	var out []netip.Prefix
 	for _, s := range []string{
 		"10.0.0.0/8", "172.16.0.0/12", "192.168.0.0/16", // RFC 1918
-		"100.64.0.0/10",  // RFC 6598
-		"169.254.0.0/16", // RFC 3927
-		"fc00::/7",       // RFC 4193
+		"100.64.0.0/10",          // RFC 6598
+		"169.254.0.0/16",         // RFC 3927
+		"fc00::/7",               // RFC 4193
 		"127.0.0.0/8", "::1/128", // loopback
 		"0.0.0.0/32", "::/128", // unspecified
 	} {
